@@ -789,6 +789,8 @@ fn file_case_line(c: &FileCase, e_lines: usize, v_lines: usize) -> String {
     let v_unreadable = matches!(c.defect, Defect::VertexFileAbsent | Defect::TruncatedVertexGz);
     t.push(if e_unreadable { "0" } else { "1" }.into());
     t.push(e_lines.to_string());
+    // the csv reader finds a header row (C15's `hasHeader`): not in a file without any content
+    t.push(if c.defect == Defect::EdgeFileEmpty { "0" } else { "1" }.into());
     if e_unreadable || c.defect == Defect::EdgeFileEmpty {
         t.push("0".into());
     } else {
@@ -803,6 +805,7 @@ fn file_case_line(c: &FileCase, e_lines: usize, v_lines: usize) -> String {
     }
     t.push(if v_unreadable { "0" } else { "1" }.into());
     t.push(v_lines.to_string());
+    t.push(if c.defect == Defect::VertexFileEmpty { "0" } else { "1" }.into());
     if v_unreadable || c.defect == Defect::VertexFileEmpty {
         t.push("0".into());
     } else {
